@@ -38,7 +38,10 @@ func (c *Ctx) packetTypes() map[string]int64 {
 // its arms.
 func (c *Ctx) dispatch(fn *ssa.Function) []dispatchArm {
 	var arms []dispatchArm
-	for _, b := range fn.Blocks {
+	for _, b := range c.regionBlocks(fn) {
+		if len(b.Instrs) == 0 {
+			continue
+		}
 		iff, ok := b.Instrs[len(b.Instrs)-1].(*ssa.If)
 		if !ok {
 			continue
